@@ -1,10 +1,31 @@
-(* C10 -- Reported depth bounds contain the depth of every match (first lemma only: the terms of the leaves;
-   the soundness statement [C10_full] is decided per generated pattern by the check, not yet proved). *)
+(* C10 -- Reported depth bounds contain the depth of every match.
+   Proved for the patterns that are a concatenation of leaves without tree wildcards (literals, separators, `?`, `*`, `$`,
+   classes: e.g. `src/*.rs`, `/a/?/[xy]*`); the general statement [C10_full] is decided per generated pattern by the check
+   (exact tie on the reported variance + component counts of matched canonical paths). *)
 From WaxModel Require Import Base Token Regex Spec Variance Fold.
-From WaxProofs Require Import RuleFacts.
+From WaxProofs Require Import RuleFacts DepthFacts.
 
-Definition C10_full (orbit : char -> list char) (ncomp : str -> N) (canonical : str -> Prop) : Prop :=
-  forall t p v, depth_variance t = Ok v -> Lang orbit t p -> canonical p -> 1 <= ncomp p -> in_variance (ncomp p) v.
+Definition C10_full (orbit : char -> list char) : Prop :=
+  forall t p v, depth_variance t = Ok v -> Lang orbit t p -> canonical p = true -> 1 <= ncomp p -> in_variance (ncomp p) v.
+
+(* the depth a flat pattern reports is invariant: its separators, plus one if it neither begins nor ends with one, minus one
+   if it does both *)
+Theorem C10_flat_depth :
+  forall sp ts v, flat_cat ts = true -> depth_variance (TCat sp ts) = Ok v -> v = Inv (flat_depth (map leaf_of ts)).
+Proof. exact depth_flat. Qed.
+Print Assumptions C10_flat_depth.
+
+(* and it is the number of components of every canonical path of the documented language that has a component and begins
+   with a separator exactly when the pattern does (hypothesis on the case-folding table: it never produces a separator) *)
+Theorem C10_flat_sound :
+  forall (orbit : char -> list char), (forall c d, In d (orbit c) -> d <> SEP) ->
+  forall sp ts v p l0 rest,
+    flat_cat ts = true -> map leaf_of ts = l0 :: rest ->
+    depth_variance (TCat sp ts) = Ok v -> Lang orbit (TCat sp ts) p ->
+    canonical p = true -> 1 <= ncomp p -> starts_sep p = is_sep_leaf l0 ->
+    in_variance (ncomp p) v.
+Proof. exact depth_flat_sound. Qed.
+Print Assumptions C10_flat_sound.
 
 Theorem C10_leaf_depth :
   forall sp l, depth_variance (TLeaf sp l) =
